@@ -137,6 +137,14 @@ def collect(prop, pairs, res, crash_kinds=None):
                 if ev.get("t") == "summary":
                     _merge_summary(res, ev)
                     got_summary = True
+                    if "digest" in ev:
+                        info["digest"] = "%016x" % (
+                            (int(info.get("digest", "0"), 16) +
+                             int(ev["digest"], 16)) % (1 << 64))
+                    for mk, mvv in ev.get("max", {}).items():
+                        info.setdefault("max", {})
+                        if mvv > info["max"].get(mk, -1):
+                            info["max"][mk] = mvv
                 elif ev.get("t") == "viol":
                     if spec.ignore_viol or ev.get("prop") != prop:
                         continue
